@@ -1069,7 +1069,10 @@ def mon_c04(case_line, acts):
             if ev[0] == 'garbled':
                 return out          # the outbound stream cannot be decoded any more (QoS 0 publish dropped mid-packet)
             if ev[0] == 'flush':
-                done = sent
+                # disconnect() flushes its own DISCONNECT, not the engine's entries: an acknowledgement whose flush the
+                # client never saw complete stays owed from the client's point of view and may be sent again
+                if a.code != 4:
+                    done = sent
             elif ev[0] == 'tx':
                 pk = ev[1]
                 if pk['type'] in ('PUBACK', 'PUBREC', 'PUBCOMP'):
